@@ -213,9 +213,10 @@ def dump_states(module, cfg, workers=8, timeout=3600, env=None):
         states = []
         fn = path + ".dump" if os.path.exists(path + ".dump") else path
         txt = open(fn).read()
-        for blk in re.split(r"^State \d+:\s*$", txt, flags=re.M):
-            if blk.strip():
-                states.append(parse_state(blk))
+        # (TLC's workers write the states in an order that differs from run to run: sorted, so that everything sampled
+        #  from them with a seeded generator is the same in every run)
+        for blk in sorted(b.strip() for b in re.split(r"^State \d+:\s*$", txt, flags=re.M) if b.strip()):
+            states.append(parse_state(blk))
         return r, states
     finally:
         shutil.rmtree(td, ignore_errors=True)
@@ -239,6 +240,8 @@ def dump_graph(module, cfg, workers=8, timeout=3600, env=None):
             if m:
                 lab = m.group(2).replace('\\"', '"').replace("\\n", "\n").replace("\\\\", "\\")
                 nodes[m.group(1)] = parse_state(lab)
+        edges.sort()        # (file order differs from run to run; see dump_states)
+        nodes = dict(sorted(nodes.items()))
         return r, nodes, edges
     finally:
         shutil.rmtree(td, ignore_errors=True)
